@@ -102,3 +102,73 @@ def endMonitor (old new : State) (signed : List Nat) (capReached : Bool) (payout
   return out
 
 end Minter
+
+namespace Minter
+
+/-! ### Governance (C20) -/
+
+/-- Voting power of the validators present in the block (not dropped). -/
+def votingPowers (s : State) (signed : List Nat) : List (PubKey × Int) :=
+  (s.validators.filter (fun v => !v.toDrop && signed.contains v.tmAddr)).map (fun v => (v.pubkey, v.totalBip))
+
+def totalPowerOf (ps : List (PubKey × Int)) : Int :=
+  let t := sumBy (fun p => p.2) ps
+  if t == 0 then 1 else t
+
+/-- Strictly more than two thirds. -/
+def passes (voted total : Int) : Bool := decide (3 * voted > 2 * total)
+
+/-- Tally of proposals `(proposal, voter)`: the best supported proposal and its power (first maximum wins, like the node). -/
+def tally (ps : List (PubKey × Int)) (votes : List (String × PubKey)) : Option (String × Int) :=
+  let props := (votes.map (·.1)).eraseDups
+  props.foldl (fun best p =>
+    let w := sumBy (fun v => if v.1 == p then (ps.lookup v.2).getD 0 else 0) votes
+    match best with
+    | none => if w > 0 then some (p, w) else none
+    | some (_, bw) => if w > bw then some (p, w) else best) none
+
+def haltExpected (s : State) (signed : List Nat) (h : Nat) : Bool :=
+  let ps := votingPowers s signed
+  let voted := sumBy (fun hv => if hv.1 == h then (ps.lookup hv.2).getD 0 else 0) s.halts
+  passes voted (totalPowerOf ps)
+
+/-- Expected winner among the commission (or version) votes for height `h`, if it passes. -/
+def winnerAt (s : State) (signed : List Nat) (h : Nat) (votes : List ((Height × PubKey) × String)) : Option String :=
+  let ps := votingPowers s signed
+  let vs := (votes.filter (fun v => v.1.1 == h)).map (fun v => (v.2, v.1.2))
+  match tally ps vs with
+  | some (p, w) => if passes w (totalPowerOf ps) then some p else none
+  | none => none
+
+/-! ### Validator set (C17) -/
+
+def minValidatorStake : Int := 1000 * 1000000000000000000
+
+/-- Candidates that qualify as validators, best stake first. -/
+def qualified (s : State) : List Candidate :=
+  sortBy (fun a b => a.totalBip > b.totalBip) (s.candidates.filter (fun c => c.status == 2 && c.totalBip ≥ minValidatorStake))
+
+def expectedPower (stake total : Int) : Int :=
+  let p := stake * 100000000 / total
+  if p == 0 then 1 else p
+
+/-- Check the validator set after an update: `vals` = validators in the state after EndBlock. -/
+def validatorSetMonitor (s : State) (limit : Nat := 64) : List String := Id.run do
+  let q := qualified s
+  let top := q.take limit
+  let mut out : List String := []
+  -- no ambiguity at the cut: either everyone fits or the boundary stakes differ
+  let clear := q.length ≤ limit || (match q[limit - 1]?, q[limit]? with
+    | some a, some b => a.totalBip != b.totalBip
+    | _, _ => true)
+  if clear then
+    for c in top do
+      if !(s.validators.any (fun v => v.pubkey == c.pubkey)) then
+        out := s!"VIOL C17 qualified-candidate-not-validator cand={c.id} stake={c.totalBip}" :: out
+    for v in s.validators do
+      if !(top.any (fun c => c.pubkey == v.pubkey)) then
+        out := s!"VIOL C17 validator-not-in-top cand-pubkey={v.pubkey} stake={v.totalBip}" :: out
+  if s.validators.length > limit then out := s!"VIOL C17 too-many-validators {s.validators.length}" :: out
+  return out
+
+end Minter
